@@ -87,7 +87,7 @@ def random_model(rnd, dim, noise_type, n_eff):
             else:
                 m = torch.randn(dim, dim, dtype=dt)
             opers.append(m)
-            rates.append(rnd.choice([0.5, 1.0, 2.0, rnd.uniform(0.01, 3)]))
+            rates.append(rnd.choice([0.0, 0.5, 1.0, 2.0, rnd.uniform(0.01, 3)]))   # a zero rate is legal in pulser
         kw.update(eff_noise_opers=tuple(opers), eff_noise_rates=tuple(rates))
     if dim == 3:
         kw["with_leakage"] = True
@@ -109,8 +109,12 @@ def check_get_lindblad_operators(rnd, trials, only=None):
         want_all = [to_emulator(m, it) for m in pulser_collapse_ops(nm, it, dim)]
         if nt == "eff_noise":
             want = want_all[-len(nm.eff_noise_opers):]
+            if len(got) != len(want):
+                print(f"REPRODUCED: get_lindblad_operators(eff_noise, {it}, dim={dim}) with rates "
+                      f"{tuple(nm.eff_noise_rates)} returns {len(got)} operators for {len(want)} pulser operators")
+                return 1
             for k, (g, w) in enumerate(zip(got, want)):
-                if len(got) != len(want) or not torch.allclose(g, w, atol=1e-12):
+                if not torch.allclose(g, w, atol=1e-12):
                     print(f"REPRODUCED: get_lindblad_operators(eff_noise, {it}, dim={dim}) operator {k}:\n"
                           f"pulser operator (pulser basis {'r,g,x' if it == 'ising' else 'u,d,x'}) * sqrt(rate) =\n"
                           f"{(math.sqrt(nm.eff_noise_rates[k]) * torch.as_tensor(nm.eff_noise_opers[k], dtype=dt))}\n"
